@@ -13,7 +13,7 @@ use crate::e5::{is_boot, meta_str, Serve, World};
 pub struct Program {
     /// per explicit append: 0 plain, 1 --meta colliding with the stamps, 2 --ttl head:1, 3 --context <other>
     pub appends: Vec<u8>,
-    /// 0 nothing, 1 string, 2 int, 3 float, 4 bool, 5 list, 6 record
+    /// 0 nothing, 1 string, 2 int, 3 float, 4 bool, 5 list, 6 record, 7 empty string, 8 empty list, 9 empty record, 10 zero
     pub ret: u8,
     /// 0 none, 1 suffix, 2 ttl head:1, 3 ttl time, 4 ttl ephemeral + suffix
     pub ret_opts: u8,
@@ -35,7 +35,7 @@ pub fn programs(thorough: bool) -> Vec<Program> {
         }
     }
     for apps in &app_sets {
-        for ret in 0..7u8 {
+        for ret in 0..11u8 {
             for ro in 0..5u8 {
                 for fail in 0..4u8 {
                     if fail == 2 && apps.len() < 2 {
@@ -64,7 +64,12 @@ fn ret_expr(r: u8) -> (&'static str, Option<Value>) {
         3 => ("1.5", Some(json!(1.5))),
         4 => ("true", Some(json!(true))),
         5 => ("[1 \"a\"]", Some(json!([1, "a"]))),
-        _ => ("{a: 1, b: \"x\"}", Some(json!({"a": 1, "b": "x"}))),
+        6 => ("{a: 1, b: \"x\"}", Some(json!({"a": 1, "b": "x"}))),
+        // empty but not nothing: still a return value
+        7 => ("\"\"", Some(json!(""))),
+        8 => ("[]", Some(json!([]))),
+        9 => ("{}", Some(json!({}))),
+        _ => ("0", Some(json!(0))),
     }
 }
 
@@ -268,7 +273,7 @@ pub fn run(tier: &str, report: &mut Report) {
     report.cov("distinct_outcomes", json!(outcomes.len()));
     report.cov("exhaustive", json!(true));
     report.cov("samples", json!(progs.iter().step_by((progs.len() / 4).max(1)).take(4).map(|p| script(p, "<ctxB>")).collect::<Vec<_>>()));
-    report.cov("explanation", json!("every handler script of the grammar {0..2 explicit .append with flags in {none, --meta colliding with the stamps, --ttl, --context other}} x {return nothing/string/int/float/bool/list/record} x {return_options none/suffix/ttl head/ttl time/ephemeral+suffix} x {failure none/before/between/after the appends} (quick: every value of every dimension and all pairs with the append shape) is registered on a fresh store behind the real handlers::serve, triggered once and flushed by a sentinel frame; observed through a follower so ephemeral outputs count"));
+    report.cov("explanation", json!("every handler script of the grammar {0..2 explicit .append with flags in {none, --meta colliding with the stamps, --ttl, --context other}} x {return nothing/string/int/float/bool/list/record/empty string/empty list/empty record/zero} x {return_options none/suffix/ttl head/ttl time/ephemeral+suffix} x {failure none/before/between/after the appends} (quick: every value of every dimension and all pairs with the append shape) is registered on a fresh store behind the real handlers::serve, triggered once and flushed by a sentinel frame; observed through a follower so ephemeral outputs count"));
 }
 
 pub fn replay(v: &Value) -> i32 {
